@@ -24,6 +24,11 @@ CHECKS = {
    technique="deterministic simulation: full sdns chain + real resolver on fake clock over simulated network; signing authoritative world with path-wide response tampering; ground-truth resolver over the zone model as oracle",
    text="Seeded search over generated zone hierarchies (signed/unsigned/opt-out, algorithms 8/10/13/14/15, NSEC/NSEC3, wildcards, CNAME/DNAME, shared servers, expired signature windows), sequential client histories with DO/AD/CD mixes that re-ask names (cache routes), and 21 kinds of path-wide tampering of chosen resolution steps, or no trust anchor. Every CD=0 reply for a securely delegated name must be SERVFAIL or equal the model's answer; AD only where entitled and secure; tamperings of the question's own response must surface as SERVFAIL. Sampling, not proof.",
    note="Trusts authsim (RFC 4034/4035/5155 answers, checked by the fault-free run: zero-tamper scenarios must reproduce ground truth) and miekg/dns signing. Names in NSEC3 opt-out spans are treated as unauthenticated. Three open findings and several fixed ones are listed in known_findings.json."),
+ "C02": dict(
+   level="exploration", design="§3 C02",
+   technique="deterministic simulation: full chain + real resolver on fake clock; genuine signed NSEC/NSEC3 records substituted path-wide; zone model existence/type truth; upstream-free (synthesised) denials checked against delivered live proofs",
+   text="Seeded search over fully signed static hierarchies with denial structure, question histories dominated by absent names/types in phases (so RFC 8198 / RFC 8020 caches answer later ones alone), and 13 kinds of substitution of genuine, correctly signed denial records (other interval, subset, duplicates, sibling/child zone, rcode relabelling, no-DS claims with forged unsigned child data, wildcard replay with or without foreign NSEC). A name that exists is never denied, a present type never reported absent, substituted data never accepted, synthesised denials need a live CD=0 proof and never rest on opt-out. Subsets/orderings are sampled, not enumerated.",
+   note="Trusts authsim's NSEC/NSEC3 chains (validated by sdns itself in fault-free runs) and the Truth model; names that are not owners of an opt-out zone are treated as unauthenticated (RFC 5155 §12.2). Proof lifetime is checked with 6 s slack (exact lifetimes belong to C04)."),
 }
 
 NOT_APPLICABLE = {
